@@ -60,7 +60,13 @@ type Case struct {
 	Copies int      `json:",omitempty"`
 	Closes int      `json:",omitempty"`
 	GateAt int      `json:",omitempty"`
+	Bundle bool     `json:",omitempty"` // graph 1 is an artifact that bundles an image manifest of graph 0 as a blob
 }
+
+// bundleMode: 0 = by chance (sequential histories), 1 = graph 1 always, -1 = never (concurrent copies: a layout that
+// holds the bytes of a manifest as a blob makes a copy trust that manifest to be complete - C03's documented rule - so a
+// concurrent copy of the bundled image would legitimately skip its content)
+var bundleMode int
 
 func sha(b []byte) string { s := sha256.Sum256(b); return "sha256:" + hex.EncodeToString(s[:]) }
 
@@ -81,6 +87,7 @@ func classify(body []byte) nodeInfo {
 		Config        *struct{ Digest string }
 		Layers        []struct{ Digest string }
 		FsLayers      []struct{ BlobSum string }
+		Blobs         []struct{ Digest string }
 	}
 	if json.Unmarshal(body, &m) != nil {
 		return nodeInfo{kind: "blob"}
@@ -100,6 +107,12 @@ func classify(body []byte) nodeInfo {
 			n.children = append(n.children, "")
 		}
 		for _, l := range m.Layers {
+			n.children = append(n.children, l.Digest)
+		}
+		return n
+	case m.MediaType == "application/vnd.oci.artifact.manifest.v1+json": // OCI artifact manifest: its blobs are leaves
+		n := nodeInfo{kind: "image", children: []string{""}}
+		for _, l := range m.Blobs {
 			n.children = append(n.children, l.Digest)
 		}
 		return n
@@ -222,6 +235,21 @@ func newWorld(seed uint64, ngraphs int, lat bool) *world {
 				}
 			}
 		}
+		if chance := r.Chance(30); i > 0 && bundleMode >= 0 && (chance || (bundleMode == 1 && i == 1)) {
+			// an artifact that bundles an image manifest of the previous graph as one of its blobs: that digest is then both a
+			// plain blob (of the artifact) and, once the image is pushed too, a manifest the index reaches
+			var im *imgen.Node
+			for _, n := range w.graphs[i-1].Nodes {
+				if n.Kind == "image" {
+					im = n
+				}
+			}
+			if im != nil {
+				g = &imgen.Graph{}
+				bl := g.Blob(im.Body, "application/vnd.example.bundled-manifest")
+				g.Root = g.Artifact([]*imgen.Node{bl}, nil, fmt.Sprintf("bundle-%d", i))
+			}
+		}
 		g.Load(w.src, srcRepo, fmt.Sprintf("g%d", i))
 		w.graphs = append(w.graphs, g)
 	}
@@ -324,8 +352,8 @@ func (w *world) do(ctx context.Context, dir string, op Op, refsAdded *[]string) 
 			smt = imgen.MTIndex
 		}
 		body, _ := json.Marshal(map[string]any{"schemaVersion": 2, "mediaType": imgen.MTImage, "artifactType": "application/vnd.example.sig",
-			"config": map[string]any{"mediaType": "application/vnd.oci.empty.v1+json", "digest": sha(cfg), "size": len(cfg)},
-			"layers": []any{map[string]any{"mediaType": "application/vnd.example.sig.payload", "digest": sha(payload), "size": len(payload)}},
+			"config":  map[string]any{"mediaType": "application/vnd.oci.empty.v1+json", "digest": sha(cfg), "size": len(cfg)},
+			"layers":  []any{map[string]any{"mediaType": "application/vnd.example.sig.payload", "digest": sha(payload), "size": len(payload)}},
 			"subject": map[string]any{"mediaType": smt, "digest": subj, "size": len(sb)}})
 		m, err := manifest.New(manifest.WithRaw(body))
 		if err != nil {
@@ -427,6 +455,10 @@ func runHist(c Case, tmp string, res *lib.Result) []string {
 	dir, _ := os.MkdirTemp(tmp, "c08-hist-")
 	defer os.RemoveAll(dir)
 	lay := filepath.Join(dir, "layout")
+	bundleMode = 0
+	if c.Bundle {
+		bundleMode = 1
+	}
 	w := newWorld(c.Seed, c.Graphs, false)
 	ctx, cancel := context.WithTimeout(context.Background(), 60*time.Second)
 	defer cancel()
@@ -468,6 +500,14 @@ func runHist(c Case, tmp string, res *lib.Result) []string {
 				break
 			}
 			if swept && !reach[d] && still {
+				if os.Getenv("VH_DEBUG") != "" {
+					fmt.Println("LEFT", d, classify(before.files[d]).kind, "index:", before.index)
+					for od, ob := range before.files {
+						if strings.Contains(string(ob), d) {
+							fmt.Println("  named by", od, classify(ob).kind, "reached:", reach[od], string(ob)[:min(len(ob), 300)])
+						}
+					}
+				}
 				res.Fail("gc-left-garbage", fmt.Sprintf("close #%d ran a collection and left %s which nothing reaches", i, d), c)
 				failed = true
 				break
@@ -606,6 +646,7 @@ func runConc(c Case, tmp string, res *lib.Result) {
 	dir, _ := os.MkdirTemp(tmp, "c08-conc-")
 	defer os.RemoveAll(dir)
 	lay := filepath.Join(dir, "layout")
+	bundleMode = -1
 	w := newWorld(c.Seed, c.Copies, c.Kind == "conc")
 	ctx, cancel := context.WithTimeout(context.Background(), 60*time.Second)
 	defer cancel()
@@ -802,6 +843,11 @@ func Run(o lib.Opts) {
 	all := []Case{
 		{Kind: "gate", Seed: 11, Copies: 2, GateAt: 1},
 		{Kind: "gate", Seed: 12, Copies: 2, GateAt: 2},
+		// a digest that is a plain blob of an artifact reached first AND a tagged manifest reached later: copy the image, copy the
+		// artifact that bundles its manifest, drop the image's tag, copy the image again under another tag, collect
+		{Kind: "hist", Seed: 16, Graphs: 2, Bundle: true, Ops: []Op{{K: "copy", G: 0, Tag: "a"}, {K: "copy", G: 1, Tag: "b"}, {K: "tagdel", Tag: "a"}, {K: "copy", G: 0, Tag: "c"}, {K: "close"}}},
+		{Kind: "hist", Seed: 17, Graphs: 2, Bundle: true, Ops: []Op{{K: "copy", G: 0, Tag: "a"}, {K: "copy", G: 1, Tag: "b"}, {K: "tagdel", Tag: "a"}, {K: "copy", G: 0, Tag: "latest"}, {K: "putblob", G: 0, N: 3}, {K: "close"}, {K: "close"}}},
+		{Kind: "hist", Seed: 18, Graphs: 3, Bundle: true, Ops: []Op{{K: "copy", G: 0, Tag: "a"}, {K: "copy", G: 1, Tag: "b"}, {K: "copy", G: 2, Tag: "c"}, {K: "tagdel", Tag: "a"}, {K: "copy", G: 0, Tag: "a"}, {K: "close"}}},
 		{Kind: "locks", Seed: 13, GC: true, Evs: []LockEv{{"lock"}, {"write"}, {"close"}, {"write"}, {"close"}, {"unlock"}, {"close"}, {"close"}}},
 		{Kind: "locks", Seed: 14, GC: true, Evs: []LockEv{{"lock"}, {"lock"}, {"write"}, {"unlock"}, {"close"}, {"unlock"}, {"unlock"}, {"close"}, {"lock"}, {"close"}}},
 		{Kind: "locks", Seed: 15, GC: false, Evs: []LockEv{{"write"}, {"close"}, {"lock"}, {"write"}, {"unlock"}, {"close"}}},
